@@ -466,6 +466,7 @@ func (c *Ctx) checkV7() {
 		c.violate("R17", key, c.pos(f.Pos()), "Dim.IsDynamic / Dim.Size are not both set")
 		return
 	}
+	c.checkV9(f)
 	val, ok := sizeStore.Val.(*ssa.Call)
 	if !ok || val.Common().StaticCallee() == nil || val.Common().StaticCallee().Name() != "GetDimValue" {
 		c.violate("R17", key, c.pos(sizeStore.Pos()), "Dim.Size is not the dimension's dim_value")
@@ -700,4 +701,65 @@ func ruleR4(c *Ctx, prop string) {
 	if len(viol) == 0 {
 		c.discharge("R4", "R4:output-names", "", fmt.Sprintf("%d reads of NodeProto output names in ops/...; none flows anywhere but len()", n))
 	}
+}
+
+// checkV9: the shape extractor reports every declared tensor that carries shape information: an iteration of
+// the loop over the value infos ends without an entry only on a nil test of one of the protobuf getters
+// (no type / no tensor type / no shape / no dims). Anything else (all dimensions unspecified, a name filter, ...)
+// removes a declared input from what Run enforces and from what introspection reports.
+func (c *Ctx) checkV9(f *ssa.Function) {
+	key := "R17:V9"
+	var mu *ssa.MapUpdate
+	for _, b := range f.Blocks {
+		for _, in := range b.Instrs {
+			if m, ok := in.(*ssa.MapUpdate); ok {
+				mu = m
+			}
+		}
+	}
+	if mu == nil {
+		c.violate("R17", key, c.pos(f.Pos()), "the shape extractor never stores an entry")
+		return
+	}
+	// outer loop: the header that dominates the store and whose loop contains it
+	var h *ssa.BasicBlock
+	for d := mu.Block(); d != nil; d = d.Idom() {
+		lb := loopBlocks(d)
+		if len(lb) > 1 && lb[mu.Block()] {
+			h = d // keep going: the outermost such header
+		}
+	}
+	if h == nil {
+		c.violate("R17", key, c.pos(f.Pos()), "the shape extractor does not loop over the declared tensors")
+		return
+	}
+	lb := loopBlocks(h)
+	bad := ""
+	for _, p := range h.Preds {
+		if !lb[p] {
+			continue
+		}
+		if mu.Block().Dominates(p) {
+			continue // iteration completed with an entry
+		}
+		okSkip := false
+		for _, g := range edgeGuards(p, h) {
+			for _, a := range atomsOf(g) {
+				if a.op == token.EQL && isNilConst(a.y) {
+					if cl, isCall := a.x.(*ssa.Call); isCall {
+						if sc := cl.Common().StaticCallee(); sc != nil && strings.HasPrefix(sc.Name(), "Get") {
+							okSkip = true
+						}
+					}
+				}
+			}
+		}
+		if !okSkip {
+			bad = "a declared tensor can be left out of the shapes for a reason other than missing shape information (e.g. all of its dimensions unspecified): Run then neither requires nor checks that input, and InputShapes does not report it"
+			if len(p.Instrs) > 0 {
+				bad += " (" + c.pos(p.Instrs[len(p.Instrs)-1].Pos()) + ")"
+			}
+		}
+	}
+	c.decide(bad == "", "R17", key, c.pos(mu.Pos()), "every declared tensor with shape information gets an entry", bad)
 }
